@@ -60,6 +60,16 @@ def fanout_tails(draw):
     """Pipelines whose persistent order depends most on how the walk treats joins: a fan-out with a stateful actor in a
     second or later branch, closed by (or followed by) further stateful actors, optionally behind a prefix."""
     names = opgen._Names()  # pylint: disable=protected-access
+    if draw(st.integers(0, 2)) == 0:
+        # one operator instantiated two or three times with the very same builder object: distinct worker groups, distinct
+        # states, one builder
+        shared = {'op': 'smapper', 'name': names('sm'), 'hp': {}, 'share': True}
+        items = [dict(shared)]
+        for _ in range(draw(st.integers(1, 2))):
+            if draw(st.booleans()):
+                items.append({'op': 'simple', 'name': names('m'), 'hp': {}, 'mapper': 'fn', 'apply': None, 'train': None, 'label': None})
+            items.append(dict(shared))
+        return {'op': 'seq', 'items': items}
     k = draw(st.integers(2, 3))
     kinds = draw(st.lists(st.sampled_from(['st', 'fn']), min_size=k, max_size=k).filter(lambda ks: 'st' in ks[1:]))
     fan = {'op': 'mapreduce', 'name': names('mr'), 'mappers': [{'name': names('mm'), 'kind': kd, 'hp': {}} for kd in kinds]}
